@@ -129,6 +129,7 @@ var encAlgOIDs = map[string]asn1.ObjectIdentifier{
 }
 
 var sidCerts = map[string][3]string{"A": {"k1", "i1", "s1"}, "B": {"k2", "i2", "s2"}, "At": {"k2", "i1", "s1"}, "C": {"k3", "i2", "s1"},
+	"S3": {"k1", "sig384", "s1"}, "S5": {"k2", "sig512", "s2"}, // certificates that were themselves issued with sha384WithRSA / sha512WithRSA
 	"E3": {"ke3", "i2", "7f"}, // a certificate whose RSA key has public exponent 3
 	"Ca": {"k3", "ca", "7f"}, "CaSub": {"k3", "ca", "7f"}} // Ca: issued by a separate CA (issuer != subject); signer id CaSub names its subject
 
@@ -266,6 +267,20 @@ func buildSymBlob(ct, content string, signers []symSigner, certs string, wrap bo
 		if s.Alg == "sha1" {
 			// a signer info that is consistently SHA-1: digest algorithm, message digest and RSA signature
 			sig, dalg = rsaSignSHA1(s.SigKey, signed), asn1.ObjectIdentifier{1, 3, 14, 3, 2, 26}
+		}
+		if s.Alg == "sha384sig" || s.Alg == "sha512sig" {
+			// everything says SHA-256 (digest algorithm, message digest), but the RSA signature over the attributes was made with
+			// SHA-384 / SHA-512: it is not an RSA-SHA256 signature
+			hh := crypto.SHA384
+			if s.Alg == "sha512sig" {
+				hh = crypto.SHA512
+			}
+			hw := hh.New()
+			hw.Write(signed)
+			var err error
+			if sig, err = rsa.SignPKCS1v15(rand.Reader, testKey(s.SigKey), hh, hw.Sum(nil)); err != nil {
+				panic(err)
+			}
 		}
 		issuerName := c.RawIssuer
 		if s.Sid == "CaSub" {
